@@ -44,6 +44,8 @@ class BMHooks(Hooks):
             if n == 'forge_script_expr':
                 it.event('key-hash', args[0])
                 return App('script_expr', args[0])
+            if n == 'is_duplicable':
+                return True  # the big_maps of this check hold duplicable values (tickets are C20's subject)
         if isinstance(callee, Builtin) and callee.name == 'sorted':
             from ..absint import sort_key_kind
             kind = sort_key_kind(it, kwargs.get('key'))
